@@ -25,7 +25,8 @@ Proof. exact P2_holds. Qed.
 Print Assumptions C11_token_server_confinement.
 
 (* two_attempts: no call makes a third attempt or any attempt after it returned; a call whose
-   second attempt carried a token acquired for it and was answered 401 returns 403 with the
+   second attempt carried a token issued to that very call (by a token request made before its
+   first attempt or in answer to the challenge) and was answered 401 returns 403 with the
    DENIED body, and no other call returns that body; any other response is passed through
    with its status. *)
 Theorem C11_two_attempts : forall E l, all_ok (evP3 E) (history (run E l)) = true.
